@@ -62,6 +62,9 @@ SETTERS = [
     "\tcpu 6502\n\tbne *+300\n\tbeq *-300", "\tcpu 68000\n\tbra.s *+400", "\tcpu z80\n\tjr $+1000",
     "\tshared leaked", "\tglobal lk2", "\tpublic lk3", "\tforward lk4", "\tlabel 5", "lkr\treg r3", "lkb\tbit 5", "lkp\tport 7",
     "lks\tsfr 80h", "\tdefine leakdef 5", "leakdef\tdefine 5",
+    # relocation bookkeeping registered behind the last data of the file
+    "\tcpu 68000\nlkx:\tdc.l 1\n\tds.b 4\n\texport_sym lkx", "\tcpu 8051\n\textern_sym lki\n\tljmp lki\n\tds 2\n\texport_sym lki2",
+    "\tcpu 68000\n\trseg\nlkr:\tdc.l lkr\n\tds.b 2\n\texport_sym lkr", "\tcpu z80\nlkz:\tnop\n\tds 3\n\texport_sym lkz\n\tend lkz",
 ]
 
 PROBES = {
@@ -79,6 +82,13 @@ PROBES = {
     "sx20": "\tcpu sx20\n\tmov w,#5\n\tmov $25,w\n\tdata 10\n",
     "6809": "\tcpu 6809\n\tlda $2012\n\tlda $12\n\tfcb 10\n",
     "msp": "\tcpu msp430\n\tmov #5,r5\n\t.byte 1\n\t.word 2\n",
+    "st6": "\tcpu st6210\n\tword 1234h,5678h\n\tbyte 1\n\tascii \"ab\"\n\tld a,12h\n",
+    "6805": "\tcpu 6805\n\tfdb $1234\n\tdw $5678\n\tlda $12\n\tlda $1234\n",
+    "6811": "\tcpu 6811\n\tfdb $1234\n\tdw $5678\n\tadr $9abc\n\tldaa $12\n\tldaa $1234\n",
+    "7700": "\tcpu melps7700\n\tadr $1234\n\tlda $12\n\tlda $1234\n",
+    "st7": "\tcpu st7\n\tdc.w $1234\n\tld a,$12\n",
+    "xgate": "\tcpu xgate\n\tfdb $1234\n\tadr $5678\n",
+    "s12z": "\tcpu s912zvc19f0mkh\n\tfdb $1234\n\tdw $5678\n",
 }
 
 
